@@ -5,5 +5,9 @@ CONSTANTS
   MaxSamples = 3
   MedianVals = {1, 2, 3, 5}
   MaxMedianOps = 6
-INVARIANTS IsAnAverage MedianOfLastThree Conservation NoDivisionByZero LargestUnitThatFits SplitOK EmitCase
+  NormRem = {0, 59, 60, 90, 200}
+  NormDt = {0, 5, 50}
+  NormPars = {0, 1, 30}
+  MaxNormCalls = 3
+INVARIANTS NormShown NormCountsDown NormFresh NormTolerant IsAnAverage MedianOfLastThree Conservation NoDivisionByZero LargestUnitThatFits SplitOK EmitCase
 CHECK_DEADLOCK FALSE
